@@ -293,6 +293,17 @@ func c01Run(c *core.Ctx, i int) *core.Result {
 				res.Ev("form_shapes", 1)
 			}
 		}
+		// the form in operand position, with user-function calls around it: a form that
+		// leaves no value (or two) unbalances the operand stack the next call pops
+		fs := []string{"(" + name + ")", "(" + name + " " + c01ArgKinds[rng.N(len(c01ArgKinds))] + ")", "(" + name + " " + c01ArgKinds[rng.N(len(c01ArgKinds))] + " " + c01ArgKinds[rng.N(len(c01ArgKinds))] + ")"}
+		for _, f := range fs {
+			pre := "(defn idw2 [id x] x)\n"
+			r.input(pre + "(- (* 3 4) (or " + f + " (* (idw2 5 -2) (idw2 6 1))))\n")
+			r.input(pre + "(idw2 1 [1 " + f + " 2])\n(idw2 (idw2 1 " + f + ") (+ 1 " + f + "))\n")
+			r.input(pre + "(let [a " + f + "] (idw2 1 a))\n(cond " + f + " (idw2 1 1) (idw2 2 2))\n")
+			r.input(pre + "(for [(def i 0) (< i 2) (def i (+ i 1))] " + f + " (idw2 i " + f + "))\n(idw2 3 (begin " + f + "))\n")
+			res.Ev("form_shapes", 4)
+		}
 		r.input("(" + name + " (" + name + "))\n")
 		r.input("(apply " + name + " [1 2])\n(map " + name + " [1 \"a\" nil])\n")
 		r.input("(defmac zm [x] ^(" + name + " ~x ~@x))\n(zm (1 2))\n(macexpand (zm (1 2)))\n")
